@@ -147,7 +147,7 @@ func runC04(f *hx.Flags, w *world) int {
 	prepareCorpus(w, f.Corpus)
 	r.RunCorpus()
 	g := &gen{r: r, w: w, rng: r.Rng, thorough: f.Tier == "thorough"}
-	nBatches, batch := 2, 25
+	nBatches, batch := 2, 22
 	if g.thorough {
 		nBatches, batch = 38, 40
 	}
